@@ -6,6 +6,8 @@
 // controller (tools/bb_hubconc.py) and waits for one byte. The controller lets exactly one process
 // run at a time, so a schedule is a deterministic total order of these calls across processes.
 // flock(LOCK_EX) is turned into try-lock + "blocked" report, so a waiter never sleeps in the kernel.
+// Path-based stat calls (stat/lstat/fstatat/statx: `std::fs::metadata`) on the tree are reported too, so a
+// commit by another process can be scheduled between a reader's open and its later stat.
 // Calls on anything outside COPIA_GATE_ROOT (stdin/stdout, /proc, libraries) pass through untouched.
 #define _GNU_SOURCE
 #include <dlfcn.h>
@@ -17,6 +19,7 @@
 #include <string.h>
 #include <sys/file.h>
 #include <sys/socket.h>
+#include <sys/stat.h>
 #include <sys/un.h>
 #include <unistd.h>
 
@@ -159,4 +162,59 @@ int flock(int fd, int op) {
         gate("blocked", fdpath[fd]);     // the controller answers only once the holder has released
         if (gfd < 0) return real(fd, op);
     }
+}
+
+// ---- path-based stat family (fd-based fstat / statx(fd, "", AT_EMPTY_PATH) is not a scheduling point)
+static void stat_gate(const char *p) {
+    init();
+    if (gfd >= 0 && under_root(p) && rel(p)[0] && strcmp(rel(p), ".copia") != 0) gate("stat", rel(p));   // not the root / control dir themselves
+}
+
+int stat(const char *p, struct stat *b) {
+    static int (*real)(const char *, struct stat *);
+    if (!real) real = dlsym(RTLD_NEXT, "stat");
+    stat_gate(p);
+    return real(p, b);
+}
+
+int stat64(const char *p, struct stat64 *b) {
+    static int (*real)(const char *, struct stat64 *);
+    if (!real) real = dlsym(RTLD_NEXT, "stat64");
+    stat_gate(p);
+    return real(p, b);
+}
+
+int lstat(const char *p, struct stat *b) {
+    static int (*real)(const char *, struct stat *);
+    if (!real) real = dlsym(RTLD_NEXT, "lstat");
+    stat_gate(p);
+    return real(p, b);
+}
+
+int lstat64(const char *p, struct stat64 *b) {
+    static int (*real)(const char *, struct stat64 *);
+    if (!real) real = dlsym(RTLD_NEXT, "lstat64");
+    stat_gate(p);
+    return real(p, b);
+}
+
+int fstatat(int d, const char *p, struct stat *b, int f) {
+    static int (*real)(int, const char *, struct stat *, int);
+    if (!real) real = dlsym(RTLD_NEXT, "fstatat");
+    if (p && p[0] == '/') stat_gate(p);
+    return real(d, p, b, f);
+}
+
+int fstatat64(int d, const char *p, struct stat64 *b, int f) {
+    static int (*real)(int, const char *, struct stat64 *, int);
+    if (!real) real = dlsym(RTLD_NEXT, "fstatat64");
+    if (p && p[0] == '/') stat_gate(p);
+    return real(d, p, b, f);
+}
+
+int statx(int d, const char *p, int f, unsigned int m, struct statx *b) {
+    static int (*real)(int, const char *, int, unsigned int, struct statx *);
+    if (!real) real = dlsym(RTLD_NEXT, "statx");
+    if (p && p[0] == '/') stat_gate(p);
+    return real(d, p, f, m, b);
 }
